@@ -302,7 +302,10 @@ func c15Instantiate(rt *rapid.T, d string, benign bool) string {
 var c15AllKinds = []string{"bare", "bare", "sub", "sub", "sub", "subsub", "lookalike", "lookalike", "suffixext", "wild", "wild", "wildsub",
 	"partwild", "badwild", "upper", "dot", "idn", "email", "email", "localhost", "foreign", "nonhost", "literal", "globinst", "globinst"}
 
-var c15HostileKinds = []string{"lookalike", "lookalike", "suffixext", "badwild", "foreign", "email-hostile", "nonhost", "localhost-hostile", "wild-foreign"}
+var c15HostileKinds = []string{"lookalike", "lookalike", "suffixext", "badwild", "foreign", "email-hostile", "nonhost", "localhost-hostile", "wild-foreign", "degenerate"}
+
+// names that a careless suffix / wildcard comparison against an EMPTY allowed_domains entry would accept
+var c15DegenerateNames = []string{"*", "www*", "login.evil.net.", "u@evil.net.", "evil.net.", "*.", "*w", "x."}
 
 // c15LegitKinds lists the derivations that some enabled switch of the role is documented to authorise.
 // The second result says which kind of allowed_domains entry (plain / glob) the derivation starts from.
@@ -347,6 +350,16 @@ func c15LegitKinds(r *c15Role) (kinds []string) {
 
 func c15DrawName(rt *rapid.T, r *c15Role, kinds []string) c15Name {
 	kind := rapid.SampledFrom(kinds).Draw(rt, "nameKind")
+	if len(kinds) == len(c15HostileKinds) {
+		for _, d := range r.AllowedDomains {
+			if d == "" && vxChance(rt, "degenerateForEmptyEntry", 60) {
+				kind = "degenerate"
+			}
+		}
+	}
+	if kind == "degenerate" {
+		return c15Name{rapid.SampledFrom(c15DegenerateNames).Draw(rt, "degenerate"), "degenerate", false}
+	}
 	var pool []string
 	wantGlob := kind == "globinst" || kind == "literal"
 	for _, d := range r.AllowedDomains {
